@@ -22,11 +22,14 @@ def arr_comb(n, k):
     n = np.where((n < 0) | (n < k), 0, n)
     prod = np.ones(n.shape, dtype=np.int64)
 
-    for i in range(k):
-        prod *= n - i
-        prod = prod // (i + 1)
+    # NOTE: C(n, k) = C(n, n - k), and the running product C(n, i) stays below the
+    # result only up to the smaller of `k` and `n - k` (as in `comb`).
+    reduced_k = np.minimum(k, np.abs(n - k))
 
-    return prod
+    for i in range(k):
+        prod = np.where(i < reduced_k, prod * (n - i) // (i + 1), prod)
+
+    return np.where(n < k, 0, prod)
 
 
 @nb.njit(cache=True)
